@@ -1198,6 +1198,11 @@ fn classify(st: &mut State, me: usize, a: &Access, role: Role, node: usize, res:
                 // walk; harmless over-approximation for the overlap accounting)
                 st.th[me].acquiring = true;
                 st.th[me].acq_overlap = others_busy(st, me);
+                // threads that own a node or are looking for one right now
+                let n = st.owner.len() + st.th.iter().filter(|t| t.acquiring).count();
+                if n > st.stats.peak_alive {
+                    st.stats.peak_alive = n;
+                }
             }
         }
         _ => {}
@@ -1207,16 +1212,15 @@ fn classify(st: &mut State, me: usize, a: &Access, role: Role, node: usize, res:
     let n = st.th.len();
     for t in 1..n {
         if t != me && st.th[t].acquiring && !st.th[t].acq_overlap {
-            let k = st.th[me].op;
-            if k == OpKind::Write || st.th[me].exiting || st.th[me].acquiring || k == OpKind::GuardDrop || k == OpKind::Other {
-                st.th[t].acq_overlap = true;
-            }
+            // any step of another thread inside the crate counts (a load may give its node up
+            // when the generation wraps, a writer holds reservations, an exit cools a node down)
+            st.th[t].acq_overlap = true;
         }
     }
 }
 
 fn others_busy(st: &State, me: usize) -> bool {
-    (1..st.th.len()).any(|t| t != me && st.th[t].st != TS::Done && st.th[t].started && (st.th[t].op == OpKind::Write || st.th[t].op == OpKind::Other || st.th[t].op == OpKind::GuardDrop || st.th[t].exiting || st.th[t].acquiring))
+    (1..st.th.len()).any(|t| t != me && st.th[t].st != TS::Done && st.th[t].started && (st.th[t].op != OpKind::None || st.th[t].exiting || st.th[t].acquiring))
 }
 
 fn node_acquired(st: &mut State, me: usize) {
